@@ -274,8 +274,8 @@ impl Property for C17 {
         "C17"
     }
     fn strategy(&self, tier: Tier) -> BoxedStrategy<Case> {
-        let mut p = CfgProfile::general();
-        p.fluct = false;
+        // fluctuation limits stay on: a close that breaches the band at a partial ratio of 100% is still a whole close
+        let p = CfgProfile::general();
         let mut w = Weights::trading();
         w.close = 18;
         w.squeeze = 2;
